@@ -124,6 +124,18 @@ def sbool_term(b):
     return z3.BoolVal(bool(b))
 
 
+def _ADD(a, b):
+    return a + b
+
+
+def _SUB(a, b):
+    return a - b
+
+
+_ADD._kind = "add"
+_SUB._kind = "sub"
+
+
 class SReal:
     """A symbolic real.  `c` is an exact Fraction when the value is a known
     constant (then no z3 term is needed until asked for)."""
@@ -174,7 +186,12 @@ class SReal:
         o = SReal.lift(o)
         if o is NotImplemented:
             return NotImplemented
-        if isinstance(o, float):  # inf / nan operand
+        if isinstance(o, float):  # inf / nan operand: a symbolic real is finite
+            kind = getattr(fop, "_kind", None)
+            if math.isinf(o) and kind in ("add", "sub"):
+                if kind == "add":
+                    return o
+                return o if swap else -o      # inf - x = inf ; x - inf = -inf
             raise SymbolicConcretisation(f"arithmetic between SReal and {o}")
         a, b = (o, self) if swap else (self, o)
         if a.c is not None and b.c is not None:
@@ -192,19 +209,19 @@ class SReal:
                     return self
                 if self.c is not None and self.c == 0:
                     return l
-        return self._bin(o, lambda a, b: a + b, lambda a, b: a + b)
+        return self._bin(o, _ADD, lambda a, b: a + b)
 
     def __radd__(self, o):
         l = SReal.lift(o)
         if isinstance(l, SReal) and l.c is not None and l.c == 0:
             return self
-        return self._bin(o, lambda a, b: a + b, lambda a, b: a + b, swap=True)
+        return self._bin(o, _ADD, lambda a, b: a + b, swap=True)
 
     def __sub__(self, o):
-        return self._bin(o, lambda a, b: a - b, lambda a, b: a - b)
+        return self._bin(o, _SUB, lambda a, b: a - b)
 
     def __rsub__(self, o):
-        return self._bin(o, lambda a, b: a - b, lambda a, b: a - b, swap=True)
+        return self._bin(o, _SUB, lambda a, b: a - b, swap=True)
 
     def __mul__(self, o):
         return self._mul(o, False)
